@@ -21,3 +21,27 @@ CHECKS["C13"] = dict(level="exploration", ref="DESIGN.md section 5 C13",
    technique="property-based testing against the exact warp-union model and a note grid model (Hypothesis + complete small placements)",
    text="hittable() compared with the warp-union rule on every tick around every event; time_notes compared with the expected sequence for all three options over routine/keysounded note data placed on warp edges and pauses, times to 1e-9 s. Complete on the small placement grid, sampled beyond.",
    note="Trusted: vf/model_timing.py, vf/gen_notes.py (grid -> text renderer and expected notes).")
+CHECKS["C07"] = dict(level="exploration", ref="DESIGN.md section 5 C07, 4.4",
+   technique="property-based testing against a note grid model (chart generated as data, text rendered from it, expected notes computed from the grid)",
+   text="Every generated grid (1..16 columns, 1..3 players, all note characters, keysounds, decoration, LF/CRLF, arbitrary row counts) must decode to exactly the model's notes in strictly increasing position order; column count, string form, NoteData(chart)/NoteData(NoteData) agree; every ordering operator agrees with the position order on adjacent, generated and free-standing pairs. Sampled, not exhaustive.",
+   note="Trusted: renderer/expected-note computation in vf/gen_notes.py; only well-formed note data is generated, as the quantifier states.")
+CHECKS["C08"] = dict(level="exploration", ref="DESIGN.md section 5 C08",
+   technique="property-based round trip (encode -> decode) plus a structural model of the canonical text",
+   text="from_notes over generated position-sorted streams (arbitrary denominators bounded per measure, absent players, gaps, keysounds, empty stream) must read back identically, report the column count, have exactly the sections/measures/rows the statement prescribes, and be a fixed point of decode -> encode; decoded C07-style texts and corpus charts re-encode stably. Sampled.",
+   note="Trusted: the decoder (validated by C07), structural reading of '&'/',' lines.")
+CHECKS["C15"] = dict(level="exploration", ref="DESIGN.md section 5 C15",
+   technique="complete enumeration of the configuration space (core configurations) plus Hypothesis sampling of the whole space against the one documented rule",
+   text="The source-selection rule is evaluated on configuration data and compared with TimingData and displaybpm for every core configuration (simfile kind x version x chart kind x 3^11 chart timing property states; complete in the thorough tier, all configurations with at most two non-absent chart properties in the quick tier) with OFFSET/DISPLAYBPM side states rotated, plus a seeded sample of the full product; simfile and chart carry disjoint values so mixing is visible.",
+   note="Trusted: own Fraction/Decimal parse of the timing strings; the full product with all side states (~4e8) is sampled, not enumerated; exhaustive refers to the core sets named in the evidence rule.")
+CHECKS["C17"] = dict(level="exploration", ref="DESIGN.md section 5 C17",
+   technique="property-based testing against an independent table-driven model transcribed from the documentation (Hypothesis + complete enumeration of all behaviour mappings over a fixed simfile family)",
+   text="ssc_to_sm must either return the SM simfile the table model predicts (template/blank properties overridden by copied pairs, charts in order) or raise the predicted exception naming the first offending key; source and templates unchanged; sm_to_ssc -> ssc_to_sm round trip equal on every original key and chart. All 5^5 total/partial mappings are enumerated over fixed family members; random sources beyond. Where documentation and code classify a key differently (simfile TIMESIGNATURES, chart LABELS/DISPLAYBPM, three blank-default values) either reading is accepted.",
+   note="Trusted: the transcription of the documented property kinds in vf/props/c17.py. Known findings (bare KeyError for SM-unholdable chart keys) are kept out of the random domain and probed on every run.")
+CHECKS["C19"] = dict(level="exploration", ref="DESIGN.md section 5 C19",
+   technique="property-based testing over generated directory trees on a native temp directory and an in-memory PyFilesystem, oracle computed from the tree and the same filesystem's own listing",
+   text="SimfileDirectory, SimfilePack, opendir and openpack are compared with expectations computed from the generated tree (mixed-case extensions, near misses, duplicates, nested and empty directories) and from each file's bytes under the passed strict/encoding options; pack contents compared as sets. Sampled.",
+   note="Trusted: CPython codecs for what decodes, msdparser for what is stray text, MemoryFS. Behaviour that depends on listing order is compared against the order the same filesystem reports.")
+CHECKS["C20"] = dict(level="exploration", ref="DESIGN.md section 5 C20",
+   technique="property-based testing over generated asset directories (native and in-memory) against an own transcription of the documented lookup rules (validity predicate: the answer must lie in the allowed set)",
+   text="For every asset kind: named file found case-insensitively (also in sub-directories) wins, else any entry matching the documented pattern, else None; the answer exists, is normalised and is stable when asked again; pack banner by extension priority inside, then beside the pack. Which of several matches is returned is not claimed.",
+   note="Trusted: own transcription of the patterns; DISC/DISCIMAGE lookup by name is excluded as the property states.")
